@@ -101,26 +101,33 @@ Definition slices_to (w len : nat) : list (nat * (nat * nat)) :=
   ++ map (fun start => let e := start + (w' - 1) in (e, (start, e + 1))) (seq 0 (len - (w' - 1))).
 
 (* ---- the public entry points -------------------------------------- *)
+(* assert!(window > 0 || len == 0): window 0 is rejected unless the series is empty (in which case
+   nothing is evaluated).  Before the repair (KNOWN_FINDINGS, C10) the two-phase bodies returned
+   without writing and the Vec/ndarray fast paths exposed the untouched buffer.                   *)
+Definition bad_window {T} (w : nat) (xs : list T) : bool := (w =? 0) && negb (length xs =? 0).
+
 Section Entry.
   Context {T S O : Type}.
 
   (* default trait method, `out = None`: assert!(window > 0), iterator body, collected in order *)
   Definition rolling_apply_default (w : nat) (f : S -> option T * T -> S * O) (s0 : S) (xs : list T)
     : outcome O :=
-    if w =? 0 then Panicked AssertFail else Done (run f s0 (args_iter w xs)).
+    if bad_window w xs then Panicked AssertFail else Done (run f s0 (args_iter w xs)).
 
   (* `out = Some(buf)` and the Vec / ndarray fast path (fresh buffer of length len) *)
   Definition rolling_apply_to (w : nat) (f : S -> option T * T -> S * O) (s0 : S) (xs : list T)
     : outcome O :=
-    finish (exec f s0 (calls_to w xs) (repeat None (length xs))).
+    if bad_window w xs then Panicked AssertFail
+    else finish (exec f s0 (calls_to w xs) (repeat None (length xs))).
 
   Definition rolling_apply_idx_default (w : nat) (f : S -> option nat * nat * T -> S * O) (s0 : S)
              (xs : list T) : outcome O :=
-    if w =? 0 then Panicked AssertFail else Done (run f s0 (args_iter_idx w xs)).
+    if bad_window w xs then Panicked AssertFail else Done (run f s0 (args_iter_idx w xs)).
 
   Definition rolling_apply_idx_to (w : nat) (f : S -> option nat * nat * T -> S * O) (s0 : S)
              (xs : list T) : outcome O :=
-    finish (exec f s0 (calls_to_idx w xs) (repeat None (length xs))).
+    if bad_window w xs then Panicked AssertFail
+    else finish (exec f s0 (calls_to_idx w xs) (repeat None (length xs))).
 
   (* slice forms: the callback receives the sub-sequence itself *)
   Definition rolling_custom_default (w : nat) (f : S -> list T -> S * O) (s0 : S) (xs : list T)
@@ -130,13 +137,14 @@ Section Entry.
 
   Definition rolling_custom_to (w : nat) (f : S -> list T -> S * O) (s0 : S) (xs : list T)
     : outcome O :=
-    finish (exec f s0 (map (fun '(slot, (st, e)) => (slot, seg st e xs)) (slices_to w (length xs)))
-                 (repeat None (length xs))).
+    if bad_window w xs then Panicked AssertFail
+    else finish (exec f s0 (map (fun '(slot, (st, e)) => (slot, seg st e xs)) (slices_to w (length xs)))
+                      (repeat None (length xs))).
 End Entry.
 
 (* two-series forms are the one-series forms over the zipped series (`combine xs ys`); the index
-   body reads `other.uget(i)` for every i < len xs, so it needs length xs <= length ys — that guard
-   is part of C10, not of C02 (which quantifies over equal lengths).                              *)
+   body reads `other.uget(i)` for every i < len xs, so it asserts length xs <= length ys (repaired,
+   see KNOWN_FINDINGS C10); the iterator bodies zip and silently stop at the shorter series.      *)
 Section Two.
   Context {T1 T2 S O : Type}.
   Definition rolling2_apply_default (w : nat) (f : S -> option (T1 * T2) * (T1 * T2) -> S * O) s0
@@ -144,18 +152,19 @@ Section Two.
     rolling_apply_default w f s0 (combine xs ys).
   Definition rolling2_apply_to (w : nat) (f : S -> option (T1 * T2) * (T1 * T2) -> S * O) s0
              (xs : list T1) (ys : list T2) : outcome O :=
-    if length ys <? length xs then Panicked OtherPanic   (* unchecked read past the end: see C10 *)
+    if length ys <? length xs then Panicked AssertFail   (* assert!(other.len() >= len) *)
     else rolling_apply_to w f s0 (combine xs ys).
   Definition rolling2_apply_idx_default (w : nat) (f : S -> option nat * nat * (T1 * T2) -> S * O) s0
              (xs : list T1) (ys : list T2) : outcome O :=
     rolling_apply_idx_default w f s0 (combine xs ys).
   Definition rolling2_apply_idx_to (w : nat) (f : S -> option nat * nat * (T1 * T2) -> S * O) s0
              (xs : list T1) (ys : list T2) : outcome O :=
-    if length ys <? length xs then Panicked OtherPanic
+    if length ys <? length xs then Panicked AssertFail
     else rolling_apply_idx_to w f s0 (combine xs ys).
   Definition rolling2_custom_default (w : nat) (f : S -> list T1 * list T2 -> S * O) s0
              (xs : list T1) (ys : list T2) : outcome O :=
-    if w =? 0 then Panicked Underflow
+    if length ys <? length xs then Panicked AssertFail
+    else if w =? 0 then Panicked Underflow
     else Done (run f s0 (map (fun '(st, e) => (seg st e xs, seg st e ys))
                              (slices_iter w (length xs)))).
 End Two.
